@@ -18,6 +18,7 @@ def main (args : List String) : IO UInt32 := do
   match args with
   | ["store"] => loop StoreDrv.step hin hout StoreDrv.init; return 0
   | ["arch"] => loop ArchDrv.step hin hout ArchDrv.init; return 0
+  | ["prox"] => loop ProximityDrv.step hin hout ProximityDrv.init; return 0
   | ["sliding"] => loop SlidingDrv.step hin hout SlidingDrv.init; return 0
   | ["idx"] => loop IdxDrv.step hin hout IdxDrv.init; return 0
   | ["cqd"] => loop CqdDrv.step hin hout CqdDrv.init; return 0
@@ -29,4 +30,5 @@ def main (args : List String) : IO UInt32 := do
   | ["bandit"] => loop BanditDrv.step hin hout BanditDrv.init; return 0
   | ["alias"] => loop AliasDrv.step hin hout AliasDrv.init; return 0
   | ["emit"] => loop EmitDrv.step hin hout EmitDrv.init; return 0
+  | ["dqd"] => loop DqdDrv.step hin hout DqdDrv.init; return 0
   | _ => IO.eprintln "usage: driver <machine>"; return 2
